@@ -14,6 +14,7 @@ CONSTANTS
   BitSplits <- BitSplitsNone
   PS = {32, 64}
   VCs = {"pat"}
+  Stride = 1
   Dev = {}
   Mode = "mc"
 INIT Init
